@@ -263,11 +263,14 @@ Gen == /\ \A c \in Cases : PrintT(<<"CASE", ToJson(Out(c))>>)
 (***************************************************************************)
 (* Check mode: every observed record carries the fields of its abstract    *)
 (* case, the observed outcome                                              *)
-(*    obs \in {"ok-exact", "ok-wrong", "none", "err", "panic"}             *)
+(*    obs \in {"ok-exact", "ok-wrong", "none", "err", "panic",             *)
+(*             "layout-unknown"}                                           *)
 (* and a detail record. The expected verdict is recomputed from the case.  *)
 (***************************************************************************)
 Obs == IF Mode = "check" THEN ndJsonDeserialize(IOEnv.TRACE) ELSE <<>>
-Bad(i) == Obs[i].obs \notin Expected(Obs[i])
+\* ("layout-unknown": the byte-level case could not be placed because the object is not laid out as the
+\*  cases assume -- the layout is not part of C12; counted by the driver as MODEL-DRIFT, not judged)
+Bad(i) == Obs[i].obs # "layout-unknown" /\ Obs[i].obs \notin Expected(Obs[i])
 Cause(o) == IF Gap(o) # "" /\ o.obs \in Design(o) THEN Gap(o) ELSE o.obs
 Check == /\ \A i \in 1..Len(Obs) :
               Bad(i) => PrintT(<<"VIOL", i, ToJson([case |-> Obs[i], expected |-> Str(Expected(Obs[i])),
